@@ -32,6 +32,7 @@ def gen(chk):
     n = 3000 if chk.tier == "quick" else 60000
     for _ in range(n):
         cfg = G.rand_cfg(rng)
+        cfg.xlate = rng.choice([0, 1, 2, 3])      # bit 1: the application answers EXPECT_CONTINUE later, not from inside the callback
         data = rand_stream(rng, rng.choice([1, 3, 10, 40, 120, 400]))
         how = rng.random()
         if how < 0.25 or len(data) < 2:
@@ -47,6 +48,7 @@ def gen(chk):
     # towards the end: last chunk and trailers - and more bytes following the damage
     for _ in range(n // 2):
         cfg = G.rand_cfg(rng)
+        cfg.xlate = rng.choice([0, 1, 2, 3])
         kind = "req" if rng.random() < 0.5 else "rsp"
         m = None
         while m is None:
@@ -68,6 +70,17 @@ def gen(chk):
             cuts = tuple(sorted(rng.sample(range(1, len(data)), rng.randint(1, min(6, len(data) - 1)))))
         pre = cfg.req_prefix() if kind == "req" else cfg.rsp_prefix()
         cases.append(pre + " " + G.frag_arg(data, cuts))
+    # Expect: 100-continue with an application that answers later: the body may arrive before any interim response
+    for chunked in (False, True):
+        for ver in (b"1.1", b"1.0"):
+            head = b"POST /e HTTP/" + ver + b"\r\nHost: h\r\nExpect: 100-continue\r\n" + (b"Transfer-Encoding: chunked\r\n\r\n" if chunked else b"Content-Length: 5\r\n\r\n")
+            body = b"5\r\nhello\r\n0\r\n\r\n" if chunked else b"hello"
+            data = head + body + b"GET / HTTP/1.1\r\nHost: h\r\nContent-Length: 0\r\n\r\n"
+            for xl in (2, 3, 0):
+                for concat in (0, 1):
+                    cfg = G.Cfg("D", 0, "s", concat, xl)
+                    for cuts in ((), (len(head),), (len(head), len(head) + 2), (len(head) - 1,), tuple(range(1, len(data)))):
+                        cases.append(cfg.req_prefix() + " " + G.frag_arg(data, cuts))
     # boundary values of the length fields: every length a ptrdiff_t / size_t can hold that no allocation can, announced
     # and then followed by a few bytes of body in the same and in a later read
     huge = [2 ** 31 - 1, 2 ** 31, 2 ** 32, 2 ** 32 + 1, 2 ** 48, 2 ** 62, 2 ** 63 - 2, 2 ** 63 - 1, 2 ** 63, 2 ** 64 - 1, 2 ** 64]
